@@ -89,9 +89,16 @@ def main(argv):
                     p.add_node(0.125, 1.0, cond=0)
                     p.circprops[0]["V"] = 25.0
             if kind == "m":
+                keep_lam = rng.random() < 0.5
+                stats["laminated_magnetics_problems"] = stats.get("laminated_magnetics_problems", 0) + int(keep_lam and any("LamType" in m for m in p.blockprops))
                 for m in p.blockprops:
                     m.pop("H_c", None)
-                    m.pop("LamType", None); m.pop("LamFill", None)
+                    if not keep_lam:
+                        m.pop("LamType", None); m.pop("LamFill", None)      # every other magnetics problem keeps its (linear) laminations
+                    elif m.get("LamType", 0) in (1, 2):
+                        # on-edge laminations are defined for isotropic iron: the solvers take ONE permeability (mu_x for type 1, mu_y for
+                        # type 2) for both directions, the post-processor pairs mu_x / mu_y with the directions - they agree when mu_x = mu_y
+                        m["Mu_y"] = m["Mu_x"]
                     if t % 2 == 0:
                         m.pop("Sigma", None)       # every second magnetics problem keeps its conductivities: resistive losses are non-trivial
                 p.bdryprops = [b for b in p.bdryprops if b["type"] == 0]
@@ -106,6 +113,12 @@ def main(argv):
                     n["bc"] = -1
                 if not any(m["J_re"] for m in p.blockprops) and not p.circprops:
                     p.blockprops[0]["J_re"] = 1.0
+                # the number of turns is a property of series-connected regions; in a parallel circuit every region is one turn (mixing
+                # wound and solid conducting regions in ONE parallel circuit is outside the generated domain, as in C05: Static2D leaves
+                # wound regions out of the conductance integral but still applies -sigma*dV in them, the post-processor does not)
+                for lab in p.labels:
+                    if lab["circ"] >= 0 and p.circprops[lab["circ"]]["type"] == 0:
+                        lab["turns"] = 1
             run = Run(build, work, "p%d" % t, p)
             stats["problems"] += 1
             stats["by_physics"][kind] = stats["by_physics"].get(kind, 0) + 1
